@@ -22,7 +22,8 @@ RangedProp(x) ==
   /\ (x.got.k # "Ok" => x.got.k \in {"ValueValidation", "InvalidUtf8", "InvalidValue"})
 OtherWant(x) == CASE x.pk = "bool" -> BoolParse(x.s) [] x.pk = "boolish" -> BoolishParse(x.s)
                 [] x.pk = "falsey" -> FalseyParse(x.s) [] x.pk = "possible" -> PossibleParse(PVs, x.ic, x.s)
-                [] x.pk = "nonempty" -> NonEmptyParse(x.s) [] x.pk = "string" -> StringParse(x.s) [] OTHER -> OsParse(x.s)
+                [] x.pk = "nonempty" -> NonEmptyParse(x.s) [] x.pk = "string" -> StringParse(x.s)
+                [] x.pk = "enum" -> EnumParse(PVs, x.ic, x.s) [] x.pk = "pathbuf" -> PathBufParse(x.s) [] OTHER -> OsParse(x.s)
 OtherProp(x) ==
   LET want == OtherWant(x)
   IN /\ (x.got.k = "Ok") <=> (want.k = "Ok")
